@@ -168,3 +168,82 @@ Theorem C16_utf8_decode_injective : forall a b cs,
   Utf8.decode a = Some cs -> Utf8.decode b = Some cs -> a = b.
 Proof. exact decode_injective. Qed.
 Print Assumptions C16_utf8_decode_injective.
+
+(* ------------------------------------------------------------ the regenerated program ------------------------------
+   Gen/Facts_C16_gen.v is re-translated from src/pyramid/static.py on every run (harness/c16/translate.py: control
+   flow mechanically, leaves through a primitive table).  The regenerated functions equal the hand-written model: *)
+Require Import Verif.Lib.Utf8 Verif.Model.C16_prims Verif.Gen.Facts_C16_gen Verif.Proofs.C16_gen.
+
+Theorem C16_gen_contains_invalid_is_model : forall item, gen_contains_invalid item = contains_invalid_char item.
+Proof. exact gen_contains_invalid_is_model. Qed.
+Print Assumptions C16_gen_contains_invalid_is_model.
+
+Theorem C16_gen_secure_path_is_model : forall t, gen_secure_path t = secure_path t.
+Proof. exact gen_secure_path_is_model. Qed.
+Print Assumptions C16_gen_secure_path_is_model.
+
+Theorem C16_gen_find_resource_path_is_model : forall c fs n fm,
+  gen_find_resource_path c fs n fm = ((Val (frp_value c fs n), fm), [(0, os_path c n)]).
+Proof. exact gen_find_resource_path_is_model. Qed.
+Print Assumptions C16_gen_find_resource_path_is_model.
+
+Theorem C16_gen_get_resource_name_is_model : forall c rq pi fs sub fm,
+  gen_get_resource_name c rq pi fs true sub fm = wrap_rn (get_resource_name c rq pi fs sub) fm /\
+  gen_get_resource_name c rq pi fs false sub fm =
+    match view_tuple pi with
+    | Datatypes.inl r => ((Raise r, fm), [])
+    | Datatypes.inr t => wrap_rn (get_resource_name c rq pi fs t) fm
+    end.
+Proof. intros. split; [apply gen_get_resource_name_subpath|apply gen_get_resource_name_path_info]. Qed.
+Print Assumptions C16_gen_get_resource_name_is_model.
+
+Theorem C16_gen_get_possible_files_is_model : forall c fs name fm,
+  gen_get_possible_files c fs name fm =
+  ((Val (fst (fst (possible_files c fs fm name))), snd (fst (possible_files c fs fm name))),
+   snd (possible_files c fs fm name)).
+Proof. exact gen_get_possible_files_is_model. Qed.
+Print Assumptions C16_gen_get_possible_files_is_model.
+
+Theorem C16_gen_find_best_match_is_model : forall rq files,
+  gen_find_best_match rq files = bm_pair (best_match rq files).
+Proof. exact gen_find_best_match_is_model. Qed.
+Print Assumptions C16_gen_find_best_match_is_model.
+
+(* __call__: value or raised response, filemap afterwards and trace are those of the model's [serve] *)
+Theorem C16_gen_call_is_model : forall c rq pi fs sub fm,
+  gen_call c rq pi fs true sub fm = rewrap (serve c rq pi fs fm sub) /\
+  gen_call c rq pi fs false sub fm =
+    match view_tuple pi with
+    | Datatypes.inl r => ((Raise r, fm), [])
+    | Datatypes.inr t => rewrap (serve c rq pi fs fm t)
+    end.
+Proof. intros. split; [apply gen_call_subpath_eq|apply gen_call_path_info_eq]. Qed.
+Print Assumptions C16_gen_call_is_model.
+
+(* ... and the property theorems hold of the regenerated program itself *)
+Theorem C16_gen_secure_path_spec : forall t p,
+  gen_secure_path t = Some p <->
+  Forall (fun s => s <> [] /\ s <> [dot] /\ s <> [dot; dot] /\ ~ In slash s /\ ~ In 0 s) t /\ p = join [slash] t.
+Proof. exact gen_secure_path_spec. Qed.
+Print Assumptions C16_gen_secure_path_spec.
+
+Theorem C16_gen_call_contained : forall c rq pi fs b sub fm,
+  wf c -> root_is_dir c fs -> fm_ok c fm ->
+  contained c (snd (gen_call c rq pi fs b sub fm)) = true /\ fm_ok c (snd (fst (gen_call c rq pi fs b sub fm))).
+Proof. exact gen_call_contained. Qed.
+Print Assumptions C16_gen_call_contained.
+
+Theorem C16_gen_call_conform : forall c rq pi fs sub fm s t b,
+  wf c -> root_is_dir c fs -> host_ok c -> fm_exact c fs fm -> decode pi = Some s ->
+  gen_tuple b pi sub = Some t ->
+  conforms (out_resp (fst (fst (gen_call c rq pi fs b sub fm))))
+           (if forallb seg_ok t then spec_tail c rq fs (Some s) t else S404) = true /\
+  fm_exact c fs (snd (fst (gen_call c rq pi fs b sub fm))).
+Proof. exact gen_call_conform. Qed.
+Print Assumptions C16_gen_call_conform.
+
+Theorem C16_gen_call_transparent : forall c rq pi fs b sub fm,
+  fm_exact c fs fm ->
+  out_resp (fst (fst (gen_call c rq pi fs b sub fm))) = out_resp (fst (fst (gen_call c rq pi fs b sub []))).
+Proof. exact gen_call_transparent. Qed.
+Print Assumptions C16_gen_call_transparent.
